@@ -10,6 +10,7 @@ import (
 	"time"
 
 	"github.com/pentops/j5/gen/j5/ext/v1/ext_j5pb"
+	"github.com/pentops/j5/gen/test/schema/v1/schema_testpb"
 	"github.com/shopspring/decimal"
 	"google.golang.org/protobuf/proto"
 	"google.golang.org/protobuf/reflect/protoreflect"
@@ -201,6 +202,9 @@ func equalSingle(fd protoreflect.FieldDescriptor, a, b protoreflect.Value, path 
 	case protoreflect.MessageKind, protoreflect.GroupKind:
 		return equalModulo(a.Message(), b.Message(), path)
 	case protoreflect.FloatKind, protoreflect.DoubleKind:
+		if math.IsNaN(a.Float()) && math.IsNaN(b.Float()) {
+			return "" // every NaN is written as "NaN" and read back as the canonical NaN
+		}
 		if math.Float64bits(a.Float()) != math.Float64bits(b.Float()) {
 			return fmt.Sprintf("%s: float %v vs %v", path, a.Float(), b.Float())
 		}
@@ -231,10 +235,17 @@ func enumOptionDefined(ed protoreflect.EnumDescriptor, n protoreflect.EnumNumber
 	return true
 }
 
-func notRepresentable(m protoreflect.Message) string {
+func notRepresentable(m protoreflect.Message) string { return notRepresentableBut(m, false) }
+
+// notRepresentableBut: with allowNonFinite, NaN / +Inf / -Inf in float fields do not count (the extended
+// round-trip clause: since /repo 5e4d94d both directions use the strings of the protobuf JSON mapping)
+func notRepresentableBut(m protoreflect.Message, allowNonFinite bool) string {
 	w := map[string]int{}
 	scanWide(m, w)
 	for _, k := range []string{"non-finite float", "out-of-range date", "out-of-range timestamp", "ill-formed j5_json"} {
+		if k == "non-finite float" && allowNonFinite {
+			continue
+		}
 		if w[k] > 0 {
 			return k
 		}
@@ -368,6 +379,12 @@ func anyBackTerm(m protoreflect.Message) string {
 // generated messages the theorem speaks about is a measured, machine-checked count.
 func outsideRepRoot(m protoreflect.Message) string {
 	why := ""
+	if w := (map[string]int{}); true {
+		scanWide(m, w)
+		if w["non-finite float"] > 0 {
+			return "non_finite_float"
+		}
+	}
 	var walk func(m protoreflect.Message)
 	walk = func(m protoreflect.Message) {
 		name := m.Descriptor().FullName()
@@ -462,13 +479,21 @@ func diffClass(d string) string {
 }
 
 func (er *encRun) roundTrip(stream string, t *target, m protoreflect.Message, flat map[string]bool) {
-	res := er.res
+	res0 := er.res
 	why := notRepresentable(m)
-	if why != "" {
-		res.Count("skipped_not_representable")
-		res.Count("skipped_" + strings.ReplaceAll(why, " ", "_"))
+	ext := ""
+	if why == "non-finite float" && notRepresentableBut(m, true) == "" {
+		// outside the property's quantifier (finite floats), inside the codec's contract since /repo 5e4d94d:
+		// NaN / Infinity / -Infinity are written as strings that the decoder's string arm reads back, at both
+		// widths. Judged under its own signatures (suffix), never counted as a theorem case (rep = false)
+		ext = " [non-finite float]"
+		res0.Count("extended_domain_non_finite_float")
+	} else if why != "" {
+		res0.Count("skipped_not_representable")
+		res0.Count("skipped_" + strings.ReplaceAll(why, " ", "_"))
 		return
 	}
+	res := &sigSuffix{Result: res0, suffix: ext}
 	caseNo := er.em.caseNo
 	er.em.caseNo++
 	res.Count(stream)
@@ -612,6 +637,25 @@ func runC01(cfg *vh.Config) error {
 		m := t.New()
 		g.fill(m, 1)
 		er.roundTrip("message", t, m, flats[t])
+	}
+	// extended domain: NaN / +Inf / -Inf in float fields of both widths (single, optional, repeated, oneof
+	// member, map value), pinned by hand and drawn
+	inf32, ninf32, nan32 := float32(math.Inf(1)), float32(math.Inf(-1)), float32(math.NaN())
+	for _, m := range []*schema_testpb.FullSchema{
+		{SFloat: inf32}, {SFloat: ninf32}, {SFloat: nan32}, {OFloat: &inf32}, {OFloat: &ninf32}, {OFloat: &nan32},
+		{RFloat: []float32{inf32, 1.5, ninf32, nan32}},
+		{AnonOneof: &schema_testpb.FullSchema_AOneofFloat{AOneofFloat: inf32}}, {AnonOneof: &schema_testpb.FullSchema_AOneofFloat{AOneofFloat: ninf32}},
+		{WrappedOneof: &schema_testpb.WrappedOneof{Type: &schema_testpb.WrappedOneof_WOneofFloat{WOneofFloat: ninf32}}},
+		{SFloat: math.MaxFloat32}, {SFloat: -math.MaxFloat32},
+	} {
+		er.roundTrip("non-finite-float", full, m.ProtoReflect(), flats[full])
+	}
+	for i := 0; i < cfg.Scale(150, 3000); i++ {
+		t := pick()
+		g := &msgGen{r: r, maxDepth: r.Range(1, 3), fieldPct: vh.Pick(r, []int{10, 30, 60}), maxEntries: r.Range(1, 3), nonFinite: true}
+		m := t.New()
+		g.fill(m, 1)
+		er.roundTrip("non-finite-float", t, m, flats[t])
 	}
 	// messages of the schemas generated for this run (compiled j5s packages, raw descriptors)
 	if gen := targets[nFixed:]; len(gen) > 0 {
@@ -842,4 +886,15 @@ func printNode(out *[]byte, n *jnode) {
 		}
 		*out = append(*out, '}')
 	}
+}
+
+// sigSuffix marks every failure of an extended-domain case with a suffix of its own
+type sigSuffix struct {
+	*vh.Result
+	suffix string
+}
+
+func (s *sigSuffix) Fail(f vh.Failure) {
+	f.Sig += s.suffix
+	s.Result.Fail(f)
 }
